@@ -59,7 +59,8 @@ impl LibOpts {
 
 pub fn gen_keys(rng: &mut Rng, n: usize, subdirs: bool) -> Vec<String> {
     let mut keys = vec![];
-    let dirs = ["", "", "", "d1", "d2", "d1/e1", "d11"];
+    // (one directory whose name reads like an address: links into it from above begin with "proj:x/")
+    let dirs = ["", "", "", "d1", "d2", "d1/e1", "d11", "", "d1", "d2", "proj:x"];
     for i in 0..n {
         let dir = if subdirs { *rng.pick(&dirs) } else { "" };
         // sometimes the same file name exists in two directories (different notes, different titles)
